@@ -1,9 +1,15 @@
 (* C04 — acknowledged state is durable: persist-before-send and crash recovery.
    Statements only: each theorem is closed by [exact <lemma>]; proofs live in Proofs/Engine.v.
    [process_step] interprets the stage list regenerated from engine.go / node.go
-   (Gen/GenC04.v) and the free-order predicate of Gen/GenRaft.v. *)
+   (Gen/GenC04.v: process_steps_stages, apply_stage_acts, send_*_selects) and the free-order
+   predicate of Gen/GenRaft.v (node.go isFreeOrderMessage): a change of the call order in the
+   Go source changes these definitions and the proofs are re-checked against them. *)
+From Coq Require Import List NArith Bool.
 From DB Require Import Model.Engine Proofs.Engine.
+Import ListNotations.
 Open Scope N_scope.
+
+(* ---- the order of effects of one engine.processSteps call ---- *)
 
 (* every occurrence of a Send of a non-free-order message, in every prefix of one
    processSteps call, is preceded by the Persist of the update the message came from *)
@@ -20,3 +26,142 @@ Theorem send_before_persist_is_free : forall us l1 k m l2 u,
   ~ In (Persist u) l1 -> is_free_order_message (m_type m) = true.
 Proof. exact send_before_persist_is_free_proved. Qed.
 Print Assumptions send_before_persist_is_free.
+
+(* raft.setFastApply (after validateUpdate did not panic) returns false exactly when the update
+   carries a snapshot or the committed range overlaps the range still to be saved *)
+Theorem set_fast_apply_false_iff_overlap : forall snap commit committed save,
+  contig committed = true -> contig save = true ->
+  validate_update commit committed save = true ->
+  (set_fast_apply snap committed save = false <->
+   snap <> 0 \/ ranges_overlap committed save = true).
+Proof. exact set_fast_apply_false_iff_proved. Qed.
+Print Assumptions set_fast_apply_false_iff_overlap.
+
+(* entries that are both in CommittedEntries and EntriesToSave of an update are handed to the
+   apply queue only after that update is durable (every occurrence, every prefix) *)
+Theorem apply_not_before_persist : forall us n l1 k es l2,
+  (forall u, In u us -> wf_update u = true) ->
+  firstn n (process_step us) = l1 ++ PushApply k es :: l2 ->
+  exists u, In u us /\ ukey u = k /\ es = u_committed u /\
+    (ranges_overlap es (u_save u) = true -> In (Persist u) l1).
+Proof. exact apply_not_before_persist_proved. Qed.
+Print Assumptions apply_not_before_persist.
+
+(* Peer.Commit (savedTo / processed advance, messages dropped) follows the persist *)
+Theorem commit_back_after_persist : forall us n l1 u l2,
+  firstn n (process_step us) = l1 ++ CommitBack u :: l2 -> In (Persist u) l1.
+Proof. exact commit_back_after_persist_proved. Qed.
+Print Assumptions commit_back_after_persist.
+
+(* ---- crash cuts ---- *)
+
+(* crash after any number n of effects of a step: the durable image of replica k covers every
+   message replica k handed to the transport within those n effects. Hypothesis update_covers
+   (executable, checked on every recorded update by trace_ok): each update's messages are
+   covered by the image once the same update is saved. *)
+Theorem crash_cut_safe : forall us (imgs : key -> image) n k m,
+  NoDup (map ukey us) ->
+  (forall u, In u us -> update_covers (imgs (ukey u)) u = true) ->
+  In (Send k m) (firstn n (process_step us)) ->
+  covers (crash n (process_step us) k (imgs k)) m = true.
+Proof. exact crash_cut_safe_proved. Qed.
+Print Assumptions crash_cut_safe.
+
+(* what "covers" means for the restarted replica (restart_term = i_term, restart_vote = i_vote,
+   restart_last_index = last_durable): term not lower; the vote of that term is the one that
+   was announced (or the term has moved on); acknowledged entries are there *)
+Theorem covers_meaning : forall img m,
+  covers img m = true -> claims_term m = true ->
+  m_term m <= i_term img /\
+  (is_vote_request m = true -> vote_ok img (m_term m) (m_from m) = true) /\
+  (is_grant m = true -> vote_ok img (m_term m) (m_to m) = true) /\
+  (is_ack m = true -> ack_ok img (m_term m) (m_logindex m) = true).
+Proof. exact covers_meaning_proved. Qed.
+Print Assumptions covers_meaning.
+
+(* ---- the step worker loop ---- *)
+
+(* any effect beyond the effects of batch b is preceded by the persist of every update of b *)
+Theorem later_effects_after_persist : forall pre b post u l1 l2,
+  In u b ->
+  worker_loop (pre ++ b :: post) = l1 ++ l2 ->
+  (length (worker_loop (pre ++ [b])) <= length l1)%nat ->
+  In (Persist u) l1.
+Proof. exact later_effects_after_persist_proved. Qed.
+Print Assumptions later_effects_after_persist.
+
+(* the leader counts its own match at append time, before its own write. A response to
+   anything sent in batch b or later (e.g. the Replicate carrying the new entry) can only be
+   consumed by a stepNode loop that follows that send; every such loop is preceded by the
+   persist of every update of b. *)
+Theorem leader_self_ack_after_persist : forall pre b post u l1 k m l2 l3,
+  In u b ->
+  worker_loop (pre ++ b :: post) = l1 ++ Send k m :: l2 ++ StepNodes :: l3 ->
+  (length (worker_loop pre) <= length l1)%nat ->
+  In (Persist u) (l1 ++ Send k m :: l2).
+Proof. exact leader_self_ack_after_persist_proved. Qed.
+Print Assumptions leader_self_ack_after_persist.
+
+(* ---- recorded traces: soundness of the extracted checker the harness runs ---- *)
+
+(* if trace_ok accepts the recorded event order of a replica, then at EVERY crash cut n of
+   that trace the durable shadow covers every message that had left by then (including the
+   images read back after the recorded crashes: TRecover) *)
+Theorem trace_ok_crash_safe : forall img evs,
+  trace_ok img evs = true ->
+  forall n m, In (TSend m) (firstn n evs) ->
+  covers (trace_image img (firstn n evs)) m = true.
+Proof. exact trace_ok_crash_safe_proved. Qed.
+Print Assumptions trace_ok_crash_safe.
+
+(* partial: what is proved of "a proposal reported Completed is still applied after all
+   replicas crash and restart" is the local half: in an accepted trace every entry handed to
+   the state machine (a completion is reported after that) is already in the durable image of
+   the replica that applied it. Missing for the full statement: that a restarted cluster
+   re-commits it (leader completeness, C03) and re-applies it (C08); the harness checks the
+   full statement on the implementation (event F of the monitor). *)
+Theorem completed_survives_full_restart_partial : forall img evs,
+  trace_ok img evs = true ->
+  forall l1 i l2, evs = l1 ++ TApply i :: l2 -> i <= last_durable (trace_image img l1).
+Proof. exact trace_ok_apply_durable_proved. Qed.
+Print Assumptions completed_survives_full_restart_partial.
+
+(* ---- non-vacuity ---- *)
+
+Definition ex_vote := mkMsg mt_RequestVoteResp 2 1 5 0 0 0 false [].
+Definition ex_repl := mkMsg mt_Replicate 3 1 5 5 7 6 false [mkEnt 8 5].
+Definition ex_ack := mkMsg mt_ReplicateResp 2 1 5 0 9 0 false [].
+Definition ex_u1 := mkUpd 1 1 (mkHS 5 2 6) [mkEnt 8 5; mkEnt 9 5] [mkEnt 6 4] 0 0 [ex_repl; ex_vote; ex_ack] true.
+Definition ex_u2 := mkUpd 2 1 (mkHS 0 0 0) [mkEnt 3 1] [mkEnt 3 1] 0 0 [] false.
+Definition ex_img := mkImg 4 0 5 0 0 [mkEnt 6 4; mkEnt 7 4].   (* what replica (1,1) holds before the step *)
+
+(* the step of this tree: free-order Replicate first, both persists, then everything else *)
+Example process_step_example :
+  process_step [ex_u1; ex_u2] =
+  [StepNodes; PushApply (1, 1) [mkEnt 6 4]; Send (1, 1) ex_repl; Persist ex_u1; Persist ex_u2;
+   PushApply (2, 1) [mkEnt 3 1];
+   LogAppend (1, 1) [mkEnt 8 5; mkEnt 9 5]; Send (1, 1) ex_vote; Send (1, 1) ex_ack; CommitBack ex_u1;
+   LogAppend (2, 1) [mkEnt 3 1]; CommitBack ex_u2].
+Proof. vm_compute. reflexivity. Qed.
+
+(* the hypotheses of the theorems are met by these updates; a cut before the persist leaves an
+   image that does NOT cover the vote (so crash_cut_safe is not vacuous) *)
+Example hypotheses_met :
+  wf_update ex_u1 = true /\ wf_update ex_u2 = true /\
+  update_covers ex_img ex_u1 = true /\ update_covers image0 ex_u2 = true /\
+  covers (crash 3 (process_step [ex_u1; ex_u2]) (1, 1) ex_img) ex_vote = false /\
+  covers (crash 8 (process_step [ex_u1; ex_u2]) (1, 1) ex_img) ex_vote = true /\
+  set_fast_apply 0 [mkEnt 3 1] [mkEnt 3 1] = false /\ set_fast_apply 0 [mkEnt 6 4] [mkEnt 8 5; mkEnt 9 5] = true.
+Proof. vm_compute. repeat split; reflexivity. Qed.
+
+(* trace_ok accepts the projection of that step and rejects the same trace with the persist
+   moved behind the vote, an acknowledgement beyond the durable log, an early apply, a
+   recovery that lost the vote *)
+Example trace_ok_examples :
+  trace_ok ex_img (project_all (1, 1) (process_step [ex_u1; ex_u2])) = true /\
+  trace_ok image0 [TSend ex_vote; TPersist ex_u1] = false /\
+  trace_ok image0 [TPersist ex_u1; TSend (mkMsg mt_ReplicateResp 2 1 5 0 10 0 false [])] = false /\
+  trace_ok image0 [TPersist ex_u1; TApply 10] = false /\
+  trace_ok image0 [TPersist ex_u1; TSend ex_vote; TRecover (mkImg 5 3 6 0 0 [mkEnt 8 5; mkEnt 9 5])] = false /\
+  trace_ok image0 [TPersist ex_u1; TSend ex_vote; TRecover (mkImg 5 2 6 0 0 [mkEnt 8 5; mkEnt 9 5])] = true.
+Proof. vm_compute. repeat split; reflexivity. Qed.
